@@ -360,6 +360,36 @@ int main(int argc, char** argv)
 			}
 			law("Rejection", ks_p(u), N / 2);
 		}
+		{	// rejection 1D with a window wider than the support: triangular density on [0,2] sampled on [-1,3] (the density is exactly
+			// zero on half of the window: an ordinary rejection, not an error)
+			std::function<double(double)> pdf = [](double x) { return std::max(0.0, 1.0 - std::fabs(x - 1.0)); };
+			auto cdf = [](double x) { return x <= 1.0 ? 0.5 * x * x : 1.0 - 0.5 * (2.0 - x) * (2.0 - x); };
+			std::vector<double> u;
+			bool insup = true;
+			intent("Rejection_Sampling on a window wider than the support");
+			for(int i = 0; i < N / 4; i++)
+			{
+				double x = Rejection_Sampling(pdf, -1.0, 3.0, 1.0, G);
+				insup	 = insup && x >= 0.0 && x <= 2.0;
+				u.push_back(cdf(std::min(2.0, std::max(0.0, x))));
+			}
+			law("RejectionZeros", insup ? ks_p(u) : 0.0, N / 4);
+		}
+		{	// Metropolis 1D, target with compact support [-1,1] inside the domain [-4,4]: most chains start where the density is zero
+			std::function<double(double)> pdf = [](double x) { return std::max(0.0, 1.0 - std::fabs(x)); };
+			auto cdf = [](double x) { return x <= 0.0 ? 0.5 * (1.0 + x) * (1.0 + x) : 1.0 - 0.5 * (1.0 - x) * (1.0 - x); };
+			std::vector<double> u;
+			bool insup = true;
+			unsigned nper = quick ? 300 : 2000;
+			intent("Sample_Metropolis with a compact-support target");
+			for(int chain = 0; chain < 10; chain++)
+				for(double x : Sample_Metropolis(G, pdf, 1.0, nper, 30, 500, std::vector<double> {-4.0, 4.0}))
+				{
+					insup = insup && x >= -1.0 && x <= 1.0;	  // after the burn-in the chain is inside the support
+					u.push_back(cdf(std::min(1.0, std::max(-1.0, x))));
+				}
+			law("MetropolisCompact", insup ? ks_p(u) : 0.0, (int)(10 * nper));
+		}
 		{	// rejection 2D: density 4 t u: marginals have CDF t^2, u^2
 			double a = 0.5, w = 2.0, c = -1.0, h = 0.5;
 			std::function<double(double, double)> pdf = [=](double x, double y) { double t = (x - a) / w, u = (y - c) / h; return 4.0 * t * u / (w * h); };
